@@ -322,11 +322,16 @@ func (ft *FakeTarget) serveConn(c *Conn) {
 			rec := EchoRecord{RawHead: rawHead, BodyB64: base64.StdEncoding.EncodeToString(body), Target: addr}
 			payload, _ = json.Marshal(rec)
 			ctype = "application/json"
+		case "filler":
+			payload = []byte(body14(d.Size))
 		default:
 			payload = []byte(addr + "|" + rid + "|")
 			for len(payload) < d.Size {
 				payload = append(payload, byte('a'+len(payload)%26))
 			}
+		}
+		if d.Status == 204 || d.Status == 304 || req.Method == "HEAD" {
+			payload = nil // no body allowed: anything written would corrupt the connection
 		}
 		var head bytes.Buffer
 		fmt.Fprintf(&head, "HTTP/1.1 %d %s\r\n", d.Status, http.StatusText(d.Status))
@@ -351,6 +356,8 @@ func (ft *FakeTarget) serveConn(c *Conn) {
 		chunked := d.Mode == "stream" || d.Mode == "sse" || d.Fault == "close_in_chunk"
 		if chunked {
 			head.WriteString("Transfer-Encoding: chunked\r\n\r\n")
+		} else if d.Status == 204 || d.Status == 304 {
+			head.WriteString("\r\n")
 		} else {
 			fmt.Fprintf(&head, "Content-Length: %d\r\n\r\n", len(payload))
 		}
